@@ -361,9 +361,6 @@ Proof.
 Qed.
 
 (* ---- LAYOUT rule versus ws ------------------------------------------------------------------ *)
-Definition with_ws (c : pconf) (ws : list N) : pconf :=
-  mkPConf (pc_g c) (pc_tb c) (pc_terms c) (pc_stop c) (pc_consume c) (pc_lexdis c) ws None.
-
 Theorem layout_rule_vs_ws c ws inp fuel pos :
   (forall p, skipws_full c inp fuel p = Some (skip_ws ws inp p)) ->
   parse_full c inp fuel pos = parse_full (with_ws c ws) inp fuel pos.
@@ -569,8 +566,6 @@ Proof.
   rewrite skipn_skipn'. f_equal. lia.
 Qed.
 
-Definition ins_S (k : N) (q q' : N) : Prop := (q < k /\ q' = q) \/ (k <= q /\ q' = q + 1).
-
 Lemma skip_ws_ins ws ch k chars rx rx' p p' :
   existsb (N.eqb ch) ws = true -> (k <= length chars)%nat ->
   ins_R (N.of_nat k) p p' ->
@@ -641,4 +636,81 @@ Proof.
       split; [eapply Hcross; eassumption|reflexivity].
     + right. split; lia.
   - exact Hpos.
+Qed.
+
+(* ---- the canonical LAYOUT rule skips exactly the maximal ws runs ---------------------- *)
+Lemma std_run_nomatch sk nt f p :
+  nt 0%nat p = TTok 3 0 ->
+  lr_parse g_std ltb_std sk nt 3 false true (S (S f)) p = LROk (TNode 5 p p []) p (0, 0) [].
+Proof.
+  intros H. unfold lr_parse, lr_init. cbn -[N.add]. rewrite H. cbn -[N.add].
+  reflexivity.
+Qed.
+
+Lemma std_run_match sk nt f p m :
+  nt 0%nat p = TTok 0 m -> nt 3%nat (p + m) = TTok 3 0 ->
+  exists t lay tr, lr_parse g_std ltb_std sk nt 3 false true (S (S (S (S f)))) p = LROk t (p + m) lay tr.
+Proof.
+  intros H1 H2. unfold lr_parse, lr_init. cbn -[N.add]. rewrite H1. cbn -[N.add].
+  rewrite H2.  cbn -[N.add]. do 3 eexists. reflexivity.
+Qed.
+
+Lemma rx_of_nz inp t p m : rx_of inp t p = Some m -> m <> 0.
+Proof.
+  unfold rx_of. destruct (nth_error (pi_rx inp) (N.to_nat t)) as [row|]; [|discriminate].
+  destruct (nth_error row (N.to_nat p)) as [[|l]|]; try discriminate.
+  intros H; inversion H. discriminate.
+Qed.
+
+Lemma nt_std inp st q :
+  (st = 0 \/ st = 3)%nat -> (forall q, rx_of inp 3 q = None) ->
+  next_token_of terms_std (rx_of inp) (in_len inp) 3 false true ltb_std st q =
+  match (if q <? in_len inp then rx_of inp 0 q else None) with
+  | Some m => TTok 0 m
+  | None => TTok 3 0
+  end.
+Proof.
+  intros Hst H0. unfold next_token_of, next_tokens.
+  destruct Hst as [-> | ->]; cbn -[N.ltb rx_of in_len lexical_disambiguation];
+    (destruct (q <? in_len inp); [|reflexivity]);
+    (destruct (rx_of inp 0 q) as [m|] eqn:E; rewrite H0; [|reflexivity]);
+    apply rx_of_nz in E; destruct m as [|pm]; [congruence| |congruence|];
+    change (prior_of terms_std 3) with 10; cbn; rewrite Pos.eqb_refl; reflexivity.
+Qed.
+
+Lemma skip_ws_end ws inp q : in_len inp <= q -> skip_ws ws inp q = q.
+Proof.
+  intros H. unfold skip_ws, in_len in *. rewrite skipn_all2 by lia. reflexivity.
+Qed.
+
+Theorem std_layout c ws inp fuel p :
+  pc_g c = g_std -> pc_terms c = terms_std -> pc_stop c = 3 -> pc_layout c = Some ltb_std ->
+  (4 <= fuel)%nat ->
+  (forall q, rx_of inp 3 q = None) ->
+  (forall q, q < in_len inp -> rx_of inp 0 q = None -> skip_ws ws inp q = q) ->
+  (forall q m, q < in_len inp -> rx_of inp 0 q = Some m ->
+     skip_ws ws inp q = q + m /\ (q + m < in_len inp -> rx_of inp 0 (q + m) = None)) ->
+  skipws_full c inp fuel p = Some (skip_ws ws inp p).
+Proof.
+  intros Hg Ht Hs Hl Hf H0 H1 H2.
+  destruct fuel as [|[|[|[|f]]]]; try lia.
+  unfold skipws_full. rewrite Hl. unfold layout_run. rewrite Hg, Ht, Hs.
+  set (nt := next_token_of terms_std (rx_of inp) (in_len inp) 3 false true ltb_std).
+  assert (Hnt0 : nt 0%nat p = match (if p <? in_len inp then rx_of inp 0 p else None) with
+                              | Some m => TTok 0 m | None => TTok 3 0 end).
+  { apply nt_std; [left; reflexivity|exact H0]. }
+  destruct (N.ltb_spec p (in_len inp)) as [Hlt|Hge].
+  - destruct (rx_of inp 0 p) as [m|] eqn:E.
+    + destruct (H2 p m Hlt E) as [Hsk Hnone].
+      assert (Hnt3 : nt 3%nat (p + m) = TTok 3 0).
+      { unfold nt. rewrite nt_std; [|right; reflexivity|exact H0].
+        destruct (N.ltb_spec (p + m) (in_len inp)) as [Hlt2|]; [|reflexivity].
+        rewrite (Hnone Hlt2). reflexivity. }
+      destruct (std_run_match (fun q => Some q) nt f p m Hnt0 Hnt3) as (t & lay & tr & Hrun).
+      rewrite Hrun, Hsk. apply rx_of_nz in E.
+      rewrite (proj2 (N.ltb_lt p (p + m))) by lia. reflexivity.
+    + rewrite (std_run_nomatch (fun q => Some q) nt (S (S f)) p Hnt0).
+      rewrite N.ltb_irrefl. rewrite (H1 p Hlt E). reflexivity.
+  - rewrite (std_run_nomatch (fun q => Some q) nt (S (S f)) p Hnt0).
+    rewrite N.ltb_irrefl. rewrite skip_ws_end by exact Hge. reflexivity.
 Qed.
